@@ -58,6 +58,14 @@ def _child(argv, cwd, env, out_path, err_path, stdin_path, opts):
     for s in (signal.SIGINT, signal.SIGTERM, signal.SIGCHLD):
         signal.signal(s, signal.default_int_handler if s == signal.SIGINT else signal.SIG_DFL)
 
+    for delay_ms, code in opts.get("prefork", []) or []:
+        # children of the Conductor process that Conductor itself did not start
+        if os.fork() == 0:
+            try:
+                time.sleep(delay_ms / 1000.0)
+            finally:
+                os._exit(code)
+
     if opts.get("audit"):
         af = open(opts["audit"], "a", buffering=1)
 
